@@ -36,7 +36,7 @@ Proof. vm_compute. reflexivity. Qed.
 (* the settable properties that cannot be unset through the API *)
 Lemma unmapped_exact :
   map unmapped_setters all_kinds =
-  [["image_type"; "stitch_node"]; ["stitch_node"]; ["stitch_node"]; ["stitch_node"]; ["stitch_node"]]%string.
+  [[]; []; []; []; []].
 Proof. vm_compute. reflexivity. Qed.
 
 (* unsetting reads None for every mapped settable property *)
@@ -103,9 +103,8 @@ Proof. apply graph_under_generic; [exact all_tables_ok_true | exact add_interfac
 Theorem graph_roundtrip_thm t : graph_wf t = true -> graph_roundtrip t = Ok t.
 Proof. apply graph_roundtrip_generic; [exact all_tables_ok_true | exact add_interface_descends_true]. Qed.
 
-(* Node.set_property / set_properties do not complete a lone image_ref / image_type from the graph
-   (they will once proposed fix C02-4 lands: the regenerated flag turns true and the model follows) *)
-Lemma node_completes_false : node_completes_image_pair = false.
+(* Node.set_property / set_properties complete a lone image_ref / image_type from the graph (fix C02-4) *)
+Lemma node_completes_true : node_completes_image_pair = true.
 Proof. reflexivity. Qed.
 
 Theorem set_properties_get k l l' d :
@@ -135,26 +134,42 @@ Theorem set_properties_is_fold k (l : list (string * fval)) d :
                 get_property k q df = get_property k q dm.
 Proof. unfold set_each_actual, set_properties. apply multi_is_fold. apply sym. Qed.
 
-Theorem set_get k p v d x :
-  settable k p = Some x -> value_ok k p v = true -> readable k d = true ->
+Theorem set_get k p v d x l' :
+  settable k p = Some x ->
+  completed_kvs node_completes_image_pair k [(p, Some v)] d = Ok l' ->
+  kws_ok k l' = true -> values_ok k l' = true -> readable k d = true ->
   exists d', set_property k p (Some v) d = Ok d' /\ get_property k p d' = Ok (stored k p v).
 Proof.
-  intros Hset Hv Hr.
-  assert (Hc : completed_kvs node_completes_image_pair k [(p, Some v)] d = Ok [(p, Some v)])
-    by (rewrite node_completes_false; reflexivity).
-  destruct (set_properties_get k _ _ d Hc (kws_ok_single k p v x Hset) Hv Hr) as [d' [H1 [_ [H2 _]]]].
-  exists d'. split; [exact H1|]. apply (H2 p v x (or_introl eq_refl) Hset).
+  intros Hset Hc Hkw Hv Hr.
+  destruct (set_properties_get k _ _ d Hc Hkw Hv Hr) as [d' [H1 [_ [H2 _]]]].
+  exists d'. split; [exact H1|]. apply (H2 p v x); [|exact Hset].
+  (* the keyword itself survives the completion *)
+  unfold completed_kvs in Hc. destruct (node_completes_image_pair && kind_eqb k KNode).
+  - apply (complete_keeps k d image_pairs _ _ p v Hc). left. reflexivity.
+  - inversion Hc; subst. left. reflexivity.
 Qed.
 
-(* frame: setting p leaves every other settable property (but the always-rewritten flag) as it was *)
+(* every keyword but the two halves of the image pair: no completion, the simple form *)
+Theorem set_get_plain k p v d x :
+  settable k p = Some x -> mem p ["image_ref"; "image_type"]%string = false ->
+  value_ok k p v = true -> readable k d = true ->
+  exists d', set_property k p (Some v) d = Ok d' /\ get_property k p d' = Ok (stored k p v).
+Proof.
+  intros Hset Hnp Hv Hr.
+  assert (Hc : completed_kvs node_completes_image_pair k [(p, Some v)] d = Ok [(p, Some v)]).
+  { apply completed_nopair. unfold no_pair_kw. cbn [forallb fst]. rewrite Hnp. reflexivity. }
+  exact (set_get k p v d x _ Hset Hc (kws_ok_single k p v x Hset) Hv Hr).
+Qed.
+
 Theorem set_frame k p v d x q y :
-  settable k p = Some x -> value_ok k p v = true -> readable k d = true ->
+  settable k p = Some x -> mem p ["image_ref"; "image_type"]%string = false ->
+  value_ok k p v = true -> readable k d = true ->
   settable k q = Some y -> y <> x -> aget y (blank k) = None -> always_written k y = false ->
   exists d', set_property k p (Some v) d = Ok d' /\ get_property k q d' = get_property k q d.
 Proof.
-  intros Hset Hv Hr Hq Hne Hb Ha.
-  assert (Hc : completed_kvs node_completes_image_pair k [(p, Some v)] d = Ok [(p, Some v)])
-    by (rewrite node_completes_false; reflexivity).
+  intros Hset Hnp Hv Hr Hq Hne Hb Ha.
+  assert (Hc : completed_kvs node_completes_image_pair k [(p, Some v)] d = Ok [(p, Some v)]).
+  { apply completed_nopair. unfold no_pair_kw. cbn [forallb fst]. rewrite Hnp. reflexivity. }
   destruct (set_properties_get k _ _ d Hc (kws_ok_single k p v x Hset) Hv Hr) as [d' [H1 [_ [_ H3]]]].
   exists d'. split; [exact H1|]. apply (H3 q y Hq); try assumption.
   rewrite (kw_targets_cons k p (Some v) [] x Hset). intros [E|[]]. apply Hne. symmetry. exact E.
@@ -175,11 +190,11 @@ Proof.
 Qed.
 
 Theorem set_get_same k p v d x :
-  settable k p = Some x -> stores_argument k p = true ->
+  settable k p = Some x -> mem p ["image_ref"; "image_type"]%string = false -> stores_argument k p = true ->
   value_ok k p v = true -> readable k d = true ->
   exists d', set_property k p (Some v) d = Ok d' /\ get_property k p d' = Ok (Some v).
 Proof.
-  intros Hset Hsa Hv Hr. destruct (set_get k p v d x Hset Hv Hr) as [d' [H1 H2]].
+  intros Hset Hnp Hsa Hv Hr. destruct (set_get_plain k p v d x Hset Hnp Hv Hr) as [d' [H1 H2]].
   exists d'. split; [exact H1|]. rewrite H2. rewrite (stored_argument k p v Hsa Hv). reflexivity.
 Qed.
 
@@ -261,16 +276,33 @@ Lemma stitch_fold_refuted :
     get_property KNode "stitch_node" dm = Ok (Some (FBool true)).
 Proof. eexists. eexists. split; [|split; [|split]]; vm_compute; reflexivity. Qed.
 
-Lemma image_ref_alone_refuted :
-  value_ok KNode "image_ref" (FStr (S"img")) = false /\
-  readable KNode w_node_props = true /\
-  exists d', set_property KNode "image_ref" (Some (FStr (S"img"))) w_node_props = Ok d' /\
-             get_property KNode "image_ref" d' = Ok None.
-Proof. split; [vm_compute; reflexivity|]. split; [vm_compute; reflexivity|]. eexists. split; vm_compute; reflexivity. Qed.
+Definition w_node_img_props : props := w_node_props ++ [("ImageRef", Some (S"img,qcow2"))]%string.
+
+(* SLIVER level (not repaired by c7cf34d): a NodeSliver object that carries only one half of the image
+   pair loses it in the converters - the pair is one graph property, written only when both are set *)
+Definition w_lone_image : attrs :=
+  aset "image_ref" (Some (FStr (S"img"))) (aset "resource_name" (w_name "n1") (blank KNode)).
+
+Lemma lone_image_half_lost :
+  bind (to_props KNode w_lone_image) (from_props KNode) = Ok (aset "image_ref" None w_lone_image) /\
+  aset "image_ref" None w_lone_image <> w_lone_image /\ attrs_wf KNode w_lone_image = false.
+Proof. split; [vm_compute; reflexivity|]. split; [vm_compute; intro H; inversion H | vm_compute; reflexivity]. Qed.
+
+(* a lone half on a node without an image is refused loudly; with an image it replaces its half *)
+Lemma image_ref_alone :
+  set_property KNode "image_ref" (Some (FStr (S"img"))) w_node_props = Err ExOther /\
+  exists l' d', completed_kvs node_completes_image_pair KNode [("image_ref", Some (FStr (S"img2")))]%string w_node_img_props = Ok l' /\
+    kws_ok KNode l' = true /\ values_ok KNode l' = true /\ readable KNode w_node_img_props = true /\
+    set_property KNode "image_ref" (Some (FStr (S"img2"))) w_node_img_props = Ok d' /\
+    get_property KNode "image_type" d' = Ok (Some (FStr (S"qcow2"))).
+Proof.
+  split; [vm_compute; reflexivity|]. eexists. eexists.
+  split; [vm_compute; reflexivity|]. split; [vm_compute; reflexivity|]. split; [vm_compute; reflexivity|].
+  split; [vm_compute; reflexivity|]. split; vm_compute; reflexivity.
+Qed.
 
 (* the model of proposed fix C02-4 (completion flag true): a lone half is completed from the graph,
    and refused when the graph has no other half *)
-Definition w_node_img_props : props := w_node_props ++ [("ImageRef", Some (S"img,qcow2"))]%string.
 
 Lemma completion_example :
   (exists d', set_property_with true KNode "image_ref" (Some (FStr (S"img2"))) w_node_img_props = Ok d' /\
